@@ -290,6 +290,16 @@ func (E *Env) StrLit(v string) *Term {
 		}
 	}
 	ts.AddAxiom(name, ts.And(ax...))
+	if len(v) <= 8 {
+		// extensionality against a short literal: a string with this length and these bytes IS the literal (without
+		// it `s != "/"` is satisfiable by a second string with the same bytes)
+		s := ts.BoundVar("s", SStr)
+		hyp := []*Term{ts.Eq(E.StrLen(s), ts.IntLit(int64(len(v))))}
+		for i := 0; i < len(v); i++ {
+			hyp = append(hyp, ts.Eq(E.StrAt(s, ts.IntLit(int64(i))), ts.IntLit(int64(v[i]))))
+		}
+		ts.AddAxiom(name, ts.Forall([]*Term{s}, ts.Implies(ts.And(hyp...), ts.Eq(s, t)), []*Term{E.StrLen(s)}))
+	}
 	return t
 }
 
